@@ -131,7 +131,9 @@ theorem cond_security :
     Cond.IsBanned = ["!exists", "record.isExpired()"] ∧
     Cond.IsAllowed = ["m.isInList(ip, m.whitelist)", "record := m.findInList(ip, m.blacklist); record != nil",
       "record.isExpired()"] ∧
-    Cond.VerifyResponse = ["err != nil"] := by decide
+    Cond.VerifyResponse = ["err != nil"] ∧
+    Cond.banIP = ["duration > 0", "existing, exists := p.bannedIPs[ip]; exists && existing.ExpiresAt.IsZero() && duration > 0",
+      "duration > 0"] := by decide
 
 /-- side conditions on the regenerated constants used by `recordFailure` -/
 theorem C03_consts : 0 < security.DefaultMaxFailures ∧ security.DefaultMaxFailures ≤ security.DefaultPermanentBanAt := by
@@ -231,66 +233,107 @@ theorem C03_banned_never (s : Srv) (e : Event) (c : Nat) (hc : e.conn? = some c)
     · exact Or.inr a
     · exact absurd j (no _ c' x a)
 
+/-- **a permanent ban stays.**  Once an address has a permanent ban record (20 accumulated failures, or `BanIP(ip, 0)`),
+then after ANY further history without an explicit `UnbanIP` of it — in particular any later temporary ban and the lapse
+of that temporary ban (`bans`), failures, successes elsewhere — the address is still banned, so by `C03_banned_never` no
+message from it is ever answered with success. -/
+theorem C03_permanent_ban_persists (s : Srv) (es : List Event) (ip : Nat)
+    (hp : s.perm ip = true) (hb : s.banned ip = true) (hno : Event.unban ip ∉ es) :
+    (runState s es).perm ip = true ∧ (runState s es).banned ip = true := by
+  induction es generalizing s with
+  | nil => exact ⟨hp, hb⟩
+  | cons e es ih =>
+    simp only [List.mem_cons, not_or] at hno
+    have sp := stepCore_spec s e
+    have hne : e ≠ .unban ip := fun h => hno.1 h.symm
+    apply ih _ _ _ hno.2
+    · exact sp.perm ip hne hp
+    · by_cases hbs : e = .bans ip
+      · exact sp.bans ip hbs hp hb
+      · exact sp.ban ip hne hbs hb
+
+/-- what an event does to the three address lists of the observer/server environment -/
+theorem track_lists (g : Env) (now nc : Nat) (e : Event) (r : RespObs) :
+    (g.track now nc e r).wl = (match e with | .wl i => upd g.wl i true | .unwl i => upd g.wl i false | _ => g.wl) ∧
+    (g.track now nc e r).bl = (match e with | .bl i => upd g.bl i true | .unbl i => upd g.bl i false | _ => g.bl) ∧
+    (g.track now nc e r).blr = (match e with | .blr i => upd g.blr i true | .unblr i => upd g.blr i false | _ => g.blr) := by
+  cases e with
+  | hs c ty k rr =>
+    cases r <;> try exact ⟨rfl, rfl, rfl⟩
+    cases rr <;> try exact ⟨rfl, rfl, rfl⟩
+    rename_i key nr
+    cases hn : g.resolveN nr <;> simp [Env.track, Env.resolve, hn]
+  | exp k => simp only [Env.track]; split <;> exact ⟨rfl, rfl, rfl⟩
+  | unexp k => simp only [Env.track]; split <;> exact ⟨rfl, rfl, rfl⟩
+  | del k => simp only [Env.track]; split <;> exact ⟨rfl, rfl, rfl⟩
+  | strip k st => simp only [Env.track]; split <;> exact ⟨rfl, rfl, rfl⟩
+  | fc c ty => exact ⟨rfl, rfl, rfl⟩
+  | mal c => exact ⟨rfl, rfl, rfl⟩
+  | ban i => exact ⟨rfl, rfl, rfl⟩
+  | unban i => exact ⟨rfl, rfl, rfl⟩
+  | banp i => exact ⟨rfl, rfl, rfl⟩
+  | bans i => simp only [Env.track]; split <;> exact ⟨rfl, rfl, rfl⟩
+  | bl i => exact ⟨rfl, rfl, rfl⟩
+  | unbl i => exact ⟨rfl, rfl, rfl⟩
+  | blr i => exact ⟨rfl, rfl, rfl⟩
+  | unblr i => exact ⟨rfl, rfl, rfl⟩
+  | restart => exact ⟨rfl, rfl, rfl⟩
+  | wl i => exact ⟨rfl, rfl, rfl⟩
+  | unwl i => exact ⟨rfl, rfl, rfl⟩
+  | refill i => exact ⟨rfl, rfl, rfl⟩
+  | issue b => exact ⟨rfl, rfl, rfl⟩
+
 /-- **a blacklisting — of one address or of a whole CIDR range — holds for every later IPManager instance.**
-After ANY further history `es` that contains no removal of that entry (in particular: any number of `restart`s, i.e.
-new IPManager instances loading the list from storage), an address that was blacklisted directly or through a range
-containing it is still blocked, so by `C03_banned_never` no message from it is answered with success or changes
-anybody's authentication. -/
+After ANY further history `es` that contains no removal of that entry and no whitelisting of the address (in
+particular: any number of `restart`s, i.e. new IPManager instances loading the lists from storage), an address that
+was blocked — blacklisted directly or through a range containing it, and not whitelisted — is still blocked, so by
+`C03_banned_never` no message from it is answered with success or changes anybody's authentication. -/
 theorem C03_blacklist_persists (s : Srv) (es : List Event) (ip : Nat) (hb : s.env.blocked ip = true)
-    (hno : Event.unbl ip ∉ es ∧ Event.unblr (ip / 2) ∉ es) : (runState s es).env.blocked ip = true := by
+    (hno : Event.unbl ip ∉ es ∧ Event.unblr (ip / 2) ∉ es ∧ Event.wl ip ∉ es) :
+    (runState s es).env.blocked ip = true := by
   induction es generalizing s with
   | nil => exact hb
   | cons e es ih =>
     simp only [List.mem_cons, not_or] at hno
-    apply ih _ _ ⟨hno.1.2, hno.2.2⟩
+    apply ih _ _ ⟨hno.1.2, hno.2.1.2, hno.2.2.2⟩
     have he : (step s e).1.env = s.env.track s.now s.nClients e (stepCore s e).2 := rfl
-    rw [he]
-    simp only [Env.blocked, Bool.or_eq_true] at hb ⊢
-    cases e with
-    | unbl ip' =>
-      have hne : ip ≠ ip' := fun h => hno.1.1 (by rw [h])
-      simpa [Env.track, upd_other _ _ _ _ hne] using hb
-    | unblr g =>
-      have hne : ip / 2 ≠ g := fun h => hno.2.1 (by rw [h])
-      simpa [Env.track, upd_other _ _ _ _ hne] using hb
-    | bl ip' =>
-      rcases hb with hb | hb
-      · left; simp only [Env.track, upd_apply]; split <;> simp_all
-      · right; exact hb
-    | blr g =>
-      rcases hb with hb | hb
-      · left; exact hb
-      · right; simp only [Env.track, upd_apply]; split <;> simp_all
-    | hs c ty k rr =>
-      have : (s.env.track s.now s.nClients (.hs c ty k rr) (stepCore s (.hs c ty k rr)).2).bl = s.env.bl ∧
-          (s.env.track s.now s.nClients (.hs c ty k rr) (stepCore s (.hs c ty k rr)).2).blr = s.env.blr := by
-        generalize (stepCore s (.hs c ty k rr)).2 = r
-        cases r <;> try exact ⟨rfl, rfl⟩
-        cases rr <;> try exact ⟨rfl, rfl⟩
-        rename_i key nr
-        cases hn : s.env.resolveN nr <;> simp [Env.track, Env.resolve, hn]
-      rw [this.1, this.2]; exact hb
-    | exp k => simp only [Env.track]; split <;> exact hb
-    | del k => simp only [Env.track]; split <;> exact hb
-    | strip k st => simp only [Env.track]; split <;> exact hb
-    | fc c ty => exact hb
-    | mal c => exact hb
-    | ban ip' => exact hb
-    | unban ip' => exact hb
-    | refill ip' => exact hb
-    | restart => exact hb
+    obtain ⟨t1, t2, t3⟩ := track_lists s.env s.now s.nClients e (stepCore s e).2
+    simp only [Env.blocked, Bool.and_eq_true, Bool.or_eq_true, Bool.not_eq_true'] at hb ⊢
+    rw [he, t1, t2, t3]
+    refine ⟨?_, ?_⟩
+    · cases e <;> try exact hb.1
+      · rename_i i
+        have : ip ≠ i := fun h => hno.2.2.1 (by rw [h])
+        simp only [upd_other _ _ _ _ this]; exact hb.1
+      · rename_i i
+        simp only [upd_apply]; split
+        · rfl
+        · exact hb.1
+    · rcases hb.2 with h | h
+      · left
+        cases e <;> try exact h
+        · rename_i i; simp only [upd_apply]; split <;> simp_all
+        · rename_i i
+          have : ip ≠ i := fun h' => hno.1.1 (by rw [h'])
+          simp only [upd_other _ _ _ _ this]; exact h
+      · right
+        cases e <;> try exact h
+        · rename_i i; simp only [upd_apply]; split <;> simp_all
+        · rename_i i
+          have : ip / 2 ≠ i := fun h' => hno.2.1.1 (by rw [h'])
+          simp only [upd_other _ _ _ _ this]; exact h
 
 /-- … spelled out for the step right after a restart: a first-connection or handshake request from an address inside a
 blacklisted range is refused by the new instance as well. -/
 theorem C03_range_blocked_after_restart (s : Srv) (e : Event) (c : Nat) (hc : e.conn? = some c)
-    (hb : s.env.blr (s.ipOf c / 2) = true) :
+    (hb : s.env.blr (s.ipOf c / 2) = true) (hw : s.env.wl (s.ipOf c) = false) :
     (step (step s .restart).1 e).2 ≠ .ok ∧ (∀ x, (step (step s .restart).1 e).2 ≠ .new x) ∧
     (∀ c', pairOf ((step (step s .restart).1 e).1.ctl c') = pairOf ((step s .restart).1.ctl c') ∨
            (step (step s .restart).1 e).1.ctl c' = none) := by
   apply C03_banned_never _ e c hc
   right
-  show (s.env.bl (s.ipOf c) || s.env.blr (s.ipOf c / 2)) = true
-  simp [hb]
+  show (!s.env.wl (s.ipOf c) && (s.env.bl (s.ipOf c) || s.env.blr (s.ipOf c / 2))) = true
+  simp [hb, hw]
 
 /-- **unknown, deleted, expired or key-less clients are never authenticated**, and a success needs the right key
 over the pending nonce: if a handshake request is answered `ok` then it named a client of the table whose
@@ -442,6 +485,26 @@ example : holds hdr2 [.blr 0, .restart, .fc 1 .control]
     [⟨.na, ⟨[none, none], [none, none], [false, false], [true, true]⟩⟩,
      ⟨.na, ⟨[none, none], [none, none], [false, false], [false, false]⟩⟩,
      ⟨.new 2, ⟨[none, some ⟨true, some 2, none⟩], [none, none, some 1], [false, false], [false, false]⟩⟩] = false := by decide
+
+/-- whitelist before blacklist; a failing credential generator; credentials that expire and are made permanent -/
+example : (run hdr2.init [.bl 0, .fc 0 .control, .wl 0, .fc 0 .control, .unwl 0, .fc 0 .control,
+    .issue true, .fc 1 .control, .issue false, .fc 1 .control,
+    .exp 1, .hs 1 .control (.idx 1) .none, .unexp 1, .hs 1 .control (.idx 1) .none]).map (·.resp) =
+    [.na, .fail, .na, .new 2, .na, .fail, .na, .fail, .na, .new 3, .na, .fail, .na, .ch 0] := by decide
+
+/-- a failed issuance counts as a failure of the address (five of them ban it) and never authenticates -/
+example : ((run hdr2.init [.issue true, .fc 0 .control, .fc 0 .control, .fc 0 .control, .fc 0 .control, .fc 0 .control]).map
+    (fun o => (o.st.conns, o.st.bans))).getLast? = some ([some ⟨false, none, none⟩, none], [true, false]) := by decide
+
+/-- a permanent ban survives a later temporary ban and its lapse; a temporary ban does not -/
+example : (run hdr2.init [.banp 0, .ban 0, .bans 0, .fc 0 .control, .ban 1, .bans 1, .fc 1 .control]).map (·.resp) =
+    [.na, .na, .na, .fail, .na, .na, .new 2] := by decide
+
+/-- the predicate rejects an observation in which a permanently banned address gets an identity after a short ban lapsed -/
+example : holds hdr2 [.banp 0, .bans 0, .fc 0 .control]
+    [⟨.na, ⟨[none, none], [none, none], [true, false], [false, false]⟩⟩,
+     ⟨.na, ⟨[none, none], [none, none], [false, false], [false, false]⟩⟩,
+     ⟨.new 2, ⟨[some ⟨true, some 2, none⟩, none], [none, none, some 0], [false, false], [false, false]⟩⟩] = false := by decide
 
 /-- the predicate is not trivially true: an observation in which the replayed response is accepted is rejected -/
 example : holds hdr2 [.hs 0 .control (.idx 0) .none, .hs 0 .control (.idx 0) (.hmac 0 (.last 0)),
